@@ -260,6 +260,28 @@ def finding_of_names(names):
 # ------------------------------------------------------------------------------------------
 # streams
 # ------------------------------------------------------------------------------------------
+
+def stream_int_unicode(I, R, full):
+    """int() of texts with non-ASCII characters: EVERY code point that is a decimal digit or a blank for CPython (and, in the
+    thorough tier, every code point of the BMP) in four positions of a number, against the model's digit table"""
+    reg = I.registry
+    cps = [cp for cp in range(128, 0x110000) if not (0xD800 <= cp < 0xE000) and (chr(cp).isdecimal() or chr(cp).isspace() or chr(cp).isdigit() or chr(cp).isnumeric())]
+    if full:
+        cps = sorted(set(cps) | set(cp for cp in range(128, 0x10000) if not (0xD800 <= cp < 0xE000)))
+    else:
+        cps = sorted(set(cps) | set(cp for cp in range(128, 0x10000, 97) if not (0xD800 <= cp < 0xE000)))
+    def one(text):
+        node = reg.Integer(7, 'h')
+        res = I.set_text(node, text)
+        R.add(Case({'op': 'val_set', 'class': 'int', 'current': 7, 'text': text}, impl=res, kind='int-unicode',
+                   tags=('int-unicode', 'intu-' + res.split('\t')[0])),
+              'val_set\tint\t%s\t%s\t%s' % (wire.enc(''), enc_val(7), wire.enc(text)))
+    for cp in cps:
+        c = chr(cp)
+        one(c); one('1' + c); one(c + '5'); one(' -' + c + '_' + c + ' ')
+    for text in ['١٢٣', '-٣', '+３', '１_０', '٣_', '_٣', '٣ ', ' ٣ ', '٣٣' * 3, '߁0', '1²', '½', '१२३', '٣-', '٣\x1f']:
+        one(text)
+
 def stream_wrap_exhaustive(I, R, maxwords):
     """textwrap.wrap(break_long_words=False, break_on_hyphens=False) against both wrap models on EVERY single-blank text
     made of up to `maxwords` words of length 1, 2, 3 or 5 (one of them hyphenated) and every width 1..7"""
@@ -499,7 +521,7 @@ def stream_texts(I, R, r, n):
                  oracle_ok=ok, oracle_msg=msg, kind='text', tags=tg)
         just = (lambda c: True) if res == 'unm' else \
                (lambda c: (c.input['class'] in STR_CLASSES and unm_justified_lit(strset_text(c.input['class'], c.input['text'])))
-                          or (c.input['class'] in INT_CLASSES and (any(ord(ch) > 127 for ch in c.input['text']) or len(c.input['text']) > 4000)))
+                          or (c.input['class'] in INT_CLASSES and len(c.input['text']) > 4000))
         R.add(c, 'val_set\t%s\t%s\t%s\t%s' % (k, PR(text), enc_val(before), wire.enc(text)),
               (lambda o, c: None) if res == 'unm' else post_unm(just))
 
@@ -863,7 +885,7 @@ def tree_safe_text(k, text):
         t = strset_text(k, text)
         return not unm_justified_lit(t)
     if k in INT_CLASSES:
-        return all(ord(ch) < 128 for ch in text) and len(text) < 4000
+        return len(text) < 4000
     return True
 
 def risky_value(k, v):
@@ -1807,6 +1829,7 @@ def explore(ctx, scale, seed_stream='c15'):
     r = rng.make(seed_stream)
     stream_corpus(I, R)
     stream_wrap_exhaustive(I, R, 4 if scale == 1 else 6)
+    stream_int_unicode(I, R, scale > 1)
     stream_codec(I, R, r, 1500 * scale)
     stream_values(I, R, r, 12 * scale, 120)
     stream_texts(I, R, r, 3000 * scale)
